@@ -35,6 +35,7 @@ func genHalt(c *Ctx) error {
 	if c.Flag("tiny") {
 		nHist = 3
 	}
+	directedHaltCatchUp(c)
 	for h := 0; h < nHist; h++ {
 		ps := pick(r, []int{512, 1024, 4096})
 		nNodes := r.Range(2, 3)
@@ -196,7 +197,15 @@ func genHalt(c *Ctx) error {
 				}
 				refusals += 2
 				for j, nTx := 0, r.Range(1, 2); j < nTx; j++ {
+					lastCommit[rep] = ""
 					ok, s := pagerStep(c, R, 4)
+					if ok && lastCommit[rep] != "" && !strings.HasPrefix(lastCommit[rep], "ok") {
+						// the holder of a granted lock must be able to write: a refusal here means the
+						// node lost (or never really had) the lock it was told it holds
+						c.Fail(fmt.Sprintf("history %d %s: a commit of the halt-lock holder was refused: %s", h, what, lastCommit[rep]))
+						failed = true
+						break
+					}
 					only = map[int]bool{primary: true, rep: true}
 					pos := states(what + " (after forwarded commit)")
 					only = nil
@@ -347,4 +356,103 @@ func genHalt(c *Ctx) error {
 		}
 	}
 	return nil
+}
+
+// directedHaltCatchUp: the halt lock is granted at a position the requesting replica has not
+// reached yet (the primary committed just before; the transaction is still in flight on the
+// replication stream when the grant arrives).  The replica must apply what is in flight, end
+// up holding the lock at exactly the primary's position, and be able to write.
+func directedHaltCatchUp(c *Ctx) {
+	r := c.Rng
+	for _, wal := range []bool{false, true} {
+		for _, inFlight := range []int{1, 2} {
+			cs := c.Begin()
+			do := func(op string) string { c.Count("op." + strings.Fields(op)[0]); return cs.Do(op) }
+			what := fmt.Sprintf("halt catch-up (wal=%v, %d in flight)", wal, inFlight)
+			lastCommit := ""
+			mk := func(k int) *pager {
+				p := newPager(r, 1024, func(op string) string {
+					out := do(fmt.Sprintf("n %d %s", k, op))
+					if op == "jrm" || op == "jtr" || strings.HasSuffix(op, " WRITE") && strings.HasPrefix(op, "unlock ") {
+						lastCommit = out
+					}
+					return out
+				})
+				p.journalMode = "DELETE"
+				return p
+			}
+			hist := map[string]bool{}
+			record := func(p *pager, st string) {
+				if pos := posOf(st); pos != "" && !strings.HasPrefix(pos, "0:") && !hist[pos] {
+					hist[pos] = true
+					do(fmt.Sprintf("hist %s %s", pos, p.refImageDigest()))
+				}
+			}
+			do("cluster 2")
+			do("allow 0")
+			do("up 0")
+			do("up 1")
+			do("sync")
+			do("n 0 createdb")
+			P := mk(0)
+			P.journalTx(P.randomShape(4), 0, 0)
+			record(P, do("n 0 state"))
+			do("sync")
+			if wal {
+				P.wal = true
+				P.journalTx(txShape{newN: len(P.img), pages: map[int]bool{1: true}, commit: true}, 0, 0)
+				record(P, do("n 0 state"))
+				do("sync")
+			}
+			do("n 0 state")
+			do("n 1 state")
+			// the primary commits while nothing reaches the replica
+			do("stream-hold 1")
+			for i := 0; i < inFlight; i++ {
+				s := P.randomShape(3)
+				if wal {
+					P.walTx(s, false, false, false)
+				} else {
+					P.journalTx(s, 0, 0)
+				}
+				record(P, do("n 0 state"))
+			}
+			do("halt-bg 1 500") // granted at once, at the primary's new position
+			do("stream-release 1")
+			out := do("halt-join 1")
+			st0, st1 := do("n 0 state"), do("n 1 state")
+			if !strings.HasPrefix(out, "ok ") || out != "ok pos="+posOf(st0) || posOf(st1) != posOf(st0) {
+				c.Fail(fmt.Sprintf("%s: halt answered %q, primary at %s, replica at %s", what, out, posOf(st0), posOf(st1)))
+			}
+			// the holder writes
+			R := mk(1)
+			R.img, R.tok = append([][]byte{}, P.img...), append([]string{}, P.tok...)
+			R.wal, R.changeCtr, R.owner = P.wal, P.changeCtr+5000, 2
+			for i := 0; i < 2; i++ {
+				lastCommit = ""
+				s := R.randomShape(3)
+				if wal {
+					R.walTx(s, false, false, false)
+				} else {
+					R.journalTx(s, 0, 0)
+				}
+				a, b := do("n 0 state"), do("n 1 state")
+				if !strings.HasPrefix(lastCommit, "ok") || strings.Contains(b, "exit=") || posOf(a) != posOf(b) {
+					c.Fail(fmt.Sprintf("%s: the holder's commit answered %q; primary %s, holder %s", what, lastCommit, a, b))
+				}
+				record(R, b)
+				do("pause")
+			}
+			do("unhalt 1 500")
+			do("sync")
+			for k := 0; k < 2; k++ {
+				do(fmt.Sprintf("n %d state", k))
+				do(fmt.Sprintf("n %d ltx", k))
+				do(fmt.Sprintf("n %d raw", k))
+			}
+			cs.End()
+			c.Count("directed.halt-catch-up")
+			c.Nontrivial(fmt.Sprintf("directed-halt-catch-up|%v|%d", wal, inFlight))
+		}
+	}
 }
